@@ -168,6 +168,22 @@ def reduceFields (urns : Option (List String)) (fms : List FieldMeta) : List (Fi
   | none => fms.zipIdx
   | some us => fms.zipIdx.filter fun p => p.1.urn ∈ us
 
+/-- every listed urn names a field -/
+def reduceAllFound (urns : Option (List String)) (fms : List FieldMeta) : Bool :=
+  match urns with
+  | none => true
+  | some us => us.all fun u => fms.any fun m => m.urn == u
+
+/-- typing of a reduce value over the picked fields: at least one field, all numeric of one type and required -/
+def reduceType (rt : RedType) (allFound : Bool) (picked : List FieldMeta) : Option ValueMeta :=
+  match picked with
+  | [] => none
+  | m0 :: _ =>
+    if allFound && rt != .bogus && m0.dt.isNumeric && picked.all (fun m => m.dt == m0.dt && m.required) then
+      some { dt := redResultType rt m0.dt, unit := if picked.all (fun m => m.unit == m0.unit) then m0.unit else "",
+             required := true, custom := none }
+    else none
+
 /-- static typing + metadata propagation of a report value; `none` = the query must be rejected -/
 def typeR : RVal D → List FieldMeta → Option ValueMeta
   | .const vm v, _ =>
@@ -197,18 +213,7 @@ def typeR : RVal D → List FieldMeta → Option ValueMeta
       if cm.dt == .boolean && cm.required && tm.dt == fm.dt && tm.unit == fm.unit && tm.required == fm.required then
         some { dt := tm.dt, unit := tm.unit, required := tm.required, custom := none }
       else none
-  | .reduce rt urns, fms =>
-    let picked := (reduceFields urns fms).map (·.1)
-    let allFound := match urns with
-      | none => true
-      | some us => us.all fun u => fms.any fun m => m.urn == u
-    match picked with
-    | [] => none
-    | m0 :: _ =>
-      if allFound && rt != .bogus && m0.dt.isNumeric && picked.all (fun m => m.dt == m0.dt && m.required) then
-        some { dt := redResultType rt m0.dt, unit := if picked.all (fun m => m.unit == m0.unit) then m0.unit else "",
-               required := true, custom := none }
-      else none
+  | .reduce rt urns, fms => reduceType rt (reduceAllFound urns fms) ((reduceFields urns fms).map (·.1))
 
 /-- row-at-a-time evaluation of a report value on the row's cells -/
 def evalR : RVal D → List FieldMeta → List (Val D) → Option (Val D)
@@ -270,8 +275,31 @@ def mkMeta (afm : AddFieldMeta) (vm : ValueMeta) : Option FieldMeta :=
               unit := if afm.overrideUnit != "" then afm.overrideUnit else vm.unit,
               custom := mergeCustom vm.custom afm.custom }
 
+/-- the field a value yields under the requested name: its type checks and the metadata is constructible -/
+def typeField (v : RVal D) (afm : AddFieldMeta) (fms : List FieldMeta) : Option FieldMeta :=
+  (typeR O v fms).bind (mkMeta afm)
+
 def mapTable (f : Row D → Option (Row D)) (rows : Option (List (Row D))) : Option (List (Row D)) :=
   rows.bind fun l => l.mapM f
+
+/-- custom metadata after a report override: the given one replaces the old one; nothing (or an empty map) given
+clears it.  `fixD22`: the variant in which nothing given keeps the old one (what the datasource twin does). -/
+def refCustom (fixD22 : Bool) (c : CustomMeta) (orig : FieldMeta) : CustomMeta :=
+  if fixD22 then (match c with
+    | some x => some x
+    | none => orig.custom)
+  else (match c with
+    | some x => if x.length > 0 then some x else none
+    | none => none)
+
+/-- keep the rows whose condition is true; the whole table fails if the condition of some row fails or is not a boolean -/
+def whereTable {α : Type} (p : α → Option (Val D)) : List α → Option (List α)
+  | [] => some []
+  | a :: l =>
+    match p a with
+    | some (.bool true) => (whereTable p l).map (a :: ·)
+    | some (.bool false) => whereTable p l
+    | _ => none
 
 /-- one selected field after the other; later fields see the earlier ones -/
 def selectMetas (fms : List FieldMeta) : List (RVal D × AddFieldMeta) → List FieldMeta → Option (List FieldMeta)
@@ -294,7 +322,7 @@ def filterR (fixD22 : Bool) (f : RFilter D) (res : List FieldMeta × Option (Lis
   let (fms, rows) := res
   match f with
   | .append v afm =>
-    (typeR O v fms).bind fun vm => (mkMeta afm vm).bind fun fm =>
+    (typeField O v afm fms).bind fun fm =>
       if fms.any (fun m => m.urn == afm.urn) then none
       else some (fms ++ [fm], mapTable (fun r => (evalR O v fms r.vals).map fun x => { r with vals := r.vals ++ [x] }) rows)
   | .drop urns =>
@@ -307,12 +335,12 @@ def filterR (fixD22 : Bool) (f : RFilter D) (res : List FieldMeta × Option (Lis
       (metas, mapTable (fun r => (selectVals O fms fs [] r.vals).map fun cur => { r with vals := cur.drop r.vals.length }) rows)
   | .replace urn v afm =>
     (fms.findIdx? (fun m => m.urn == urn)).bind fun idx =>
-      (typeR O v fms).bind fun vm => (mkMeta afm vm).bind fun fm =>
+      (typeField O v afm fms).bind fun fm =>
         if fm.urn != urn && fms.any (fun m => m.urn == fm.urn) then none
         else some (setAt fms idx fm, mapTable (fun r => (evalR O v fms r.vals).bind fun x =>
           if idx < r.vals.length then some { r with vals := setAt r.vals idx x } else none) rows)
   | .single v afm =>
-    (typeR O v fms).bind fun vm => (mkMeta afm vm).map fun fm =>
+    (typeField O v afm fms).map fun fm =>
       ([fm], mapTable (fun r => (evalR O v fms r.vals).map fun x => { r with vals := [x] }) rows)
   | .override u nu nn c =>
     (fms.findIdx? (fun m => m.urn == u)).bind fun idx =>
@@ -321,20 +349,12 @@ def filterR (fixD22 : Bool) (f : RFilter D) (res : List FieldMeta × Option (Lis
         if newUrn != orig.urn && fms.any (fun m => m.urn == newUrn) then none
         else if newUrn == "" then none
         else
-          let cm := if fixD22 then (match c with
-              | some x => some x
-              | none => orig.custom)
-            else (match c with
-              | some x => if x.length > 0 then some x else none
-              | none => none)
+          let cm := refCustom fixD22 c orig
           some (setAt fms idx { orig with urn := newUrn, unit := nn.getD orig.unit, custom := cm }, rows)
   | .where_ v =>
     (typeR O v fms).bind fun vm =>
       if vm.dt == .boolean && vm.required then
-        some (fms, rows.bind fun l => (l.mapM fun r => (evalR O v fms r.vals).bind fun x =>
-          match x with
-          | .bool b => some (r, b)
-          | _ => none).map fun ps => (ps.filter (·.2)).map (·.1))
+        some (fms, rows.bind (whereTable fun r => evalR O v fms r.vals))
       else none
   -- note: `override` keeps dataType/required; a field whose type is invalid cannot exist in a well-formed result
 
@@ -400,8 +420,8 @@ def joinTables (jt : JoinType) (tables : List (List FieldMeta × List (Row D))) 
 
 def joinMetasRef (jt : JoinType) (tables : List (List FieldMeta)) : Option (List FieldMeta) :=
   let all := tables.flatten
-  let urns := all.map (·.urn)
-  if urns.eraseDups.length != urns.length then none
+  let urns : List String := all.map (·.urn)
+  if !decide urns.Nodup then none
   else
     let n := tables.length
     some ((tables.zipIdx.map fun p =>
@@ -410,33 +430,32 @@ def joinMetasRef (jt : JoinType) (tables : List (List FieldMeta)) : Option (List
 
 mutual
   /-- reference semantics of a report datasource over [from_, to) -/
-  def refR (fixD22 : Bool) (from_ to : Int) : RDs D → RRes D
+  def semR (fixD22 : Bool) (from_ to : Int) : RDs D → RRes D
     | .static metas rows =>
-      let urns := metas.map (·.urn)
-      if metas.isEmpty || urns.eraseDups.length != urns.length then none
+      if metas.isEmpty || !decide (metas.map (·.urn)).Nodup then none
       else some (metas, some (rows.filter fun r => decide (from_ ≤ r.ts ∧ r.ts < to)))
-    | .filtered ds fs => (refR fixD22 from_ to ds).bind (filtersR O fixD22 fs)
+    | .filtered ds fs => (semR fixD22 from_ to ds).bind (filtersR O fixD22 fs)
     | .join jt srcs =>
-      (refRL fixD22 from_ to srcs).bind fun results =>
+      (semRL fixD22 from_ to srcs).bind fun results =>
         (joinMetasRef jt (results.map (·.1))).map fun metas =>
           (metas, (results.mapM fun (r : List FieldMeta × Option (List (Row D))) =>
             r.2.map fun rows => (r.1, rows)).map (joinTables jt))
-    | .fromDs ds => refD fixD22 from_ to ds
-  def refRL (fixD22 : Bool) (from_ to : Int) : RDsL D → Option (List (List FieldMeta × Option (List (Row D))))
+    | .fromDs ds => semD fixD22 from_ to ds
+  def semRL (fixD22 : Bool) (from_ to : Int) : RDsL D → Option (List (List FieldMeta × Option (List (Row D))))
     | .nil => some []
-    | .cons d l => (refR fixD22 from_ to d).bind fun r => (refRL fixD22 from_ to l).map (r :: ·)
+    | .cons d l => (semR fixD22 from_ to d).bind fun r => (semRL fixD22 from_ to l).map (r :: ·)
   /-- reference semantics of a datasource-package datasource, as a one-field table -/
-  def refD (fixD22 : Bool) (from_ to : Int) : DDs D → RRes D
+  def semD (fixD22 : Bool) (from_ to : Int) : DDs D → RRes D
     | .static fm rows =>
       some ([fm], some ((rows.filter fun r => decide (from_ ≤ r.ts ∧ r.ts < to)).map fun r => { ts := r.ts, vals := [r.val] }))
     | .filtered ds fs =>
-      (refD fixD22 from_ to ds).bind fun res =>
+      (semD fixD22 from_ to ds).bind fun res =>
         match res.1 with
         | [fm] => filtersR O true (liftFilters fm.urn fs) res
         | _ => none
     | .reduction _ _ _ _ _ => none      -- the reduction datasource is outside the reference semantics (C14 owns it)
     | .fromReport r urn =>
-      (refR fixD22 from_ to r).bind fun res =>
+      (semR fixD22 from_ to r).bind fun res =>
         (res.1.findIdx? (fun m => m.urn == urn)).bind fun idx =>
           (res.1[idx]?).map fun fm =>
             ([fm], res.2.map fun rows => rows.map fun row => { ts := row.ts, vals := [(row.vals[idx]?).getD .nil] })
